@@ -115,7 +115,12 @@ func genDataKids(r *Rng, kids []any, pInclude int) []any {
 			}
 		case "leaf":
 			if r.Chance(pInclude) {
-				out = append(out, map[string]any{"n": cstr(n, "n"), "vals": []any{valueFor(r, cmap(n, "type"), true)}})
+				if !noEmptyMulti && r.Chance(4) {
+					// a leaf node that carries no value (the API allows it): present for mandatory, nothing to compare for unique
+					out = append(out, map[string]any{"n": cstr(n, "n"), "vals": []any{}})
+				} else {
+					out = append(out, map[string]any{"n": cstr(n, "n"), "vals": []any{valueFor(r, cmap(n, "type"), true)}})
+				}
 			}
 		case "leaf-list":
 			if r.Chance(pInclude) {
